@@ -12,7 +12,17 @@ Dictionaries are slot vectors over the key alphabet of a case (`Model/Val.lean`)
 for every alphabet size, every nesting depth, every leaf type `α` with decidable equality and every
 `level : Int`.  `contained lv a b` is "`a` is contained in `b`" with the recursion depth `lv` that
 `intersection`/`difference` document (`-1`: unlimited, `1`: items compared by `==`, `0`: whole
-dictionaries compared). -/
+dictionaries compared).
+
+For a finite level the order `contained level` is *read off the code and its docstring* (level 1: items compared by
+`==`; level 0: `a == b`, or `a` empty); "the greatest dictionary contained in every argument" is false for a finite
+level under the ordinary (unlimited) containment.  So `inter_lower` / `inter_greatest` / `diff_exact` at finite levels
+are statements relative to that order; `inter_level0`, `inter_level1_key`, `inter_level_step`, `cont_level_unlimited`,
+`inter_level_le_unlimited`, `level_covers_*` and the level-independent `reconstruct` do not depend on it.
+
+Leaves: `α` with decidable equality, i.e. the leaves of the real values are assumed to have a reflexive `==` that
+`copy.deepcopy` preserves (no NaN, no objects compared by identity); arguments are tree-shaped and pairwise disjoint
+object graphs wherever identities are involved (the token and write-log models allocate per occurrence). -/
 
 namespace Lena.C07
 open Lena Lena.Val
@@ -116,6 +126,14 @@ theorem inter_unique (n : Nat) (lv : Int) (ds : List (Slots α)) (g : Slots α) 
   cont_antisymm lv n _ _ (inter_wf n lv ds hw) hg
     (hgreatest _ (inter_wf n lv ds hw) (fun d hd => inter_lower n lv ds d hd))
     (inter_greatest n lv ds g hne hlower)
+
+example : interN 2 (-1) [[L 0, D [L 1, L 2]], [L 0, D [L 1, L 3]]] = [L 0, D [L 1, none]] :=
+  inter_unique 2 (-1) _ _ (by simp) (forall_pair (wfd2 _ (by decide +kernel)) (wfd2 _ (by decide +kernel)))
+    (wfd2 _ (by decide +kernel)) (by decide +kernel)
+    (fun c _ hc => by
+      have e : interN 2 (-1) [[L 0, D [L 1, L 2]], [L 0, D [L 1, L 3]]] = [L 0, D [L 1, none]] := by decide +kernel
+      rw [← e]
+      exact inter_greatest 2 (-1) [[L 0, D [L 1, L 2]], [L 0, D [L 1, L 3]]] c (by simp) hc)
 
 /-- the order of the arguments is irrelevant (commutativity and associativity in one statement) -/
 theorem inter_perm (n : Nat) (lv : Int) (ds ds' : List (Slots α)) (hp : ds.Perm ds')
@@ -647,6 +665,10 @@ theorem update_nested_other_kept (k : Nat) (d o d' o' : Slots α)
     | lenaTypeError => rw [hn] at h; simp at h
     | typeError => rw [hn] at h; simp at h
 
+-- `update_nested("k0", {"k0": 5}, {"k0": {"k1": 3}, "k1": 3})`: the items "k1" of `other` and of `other["k0"]` are kept
+example : getPath (.dict [D [L 5, L 3], L 3]) [1] = getPath (.dict [D [none, L 3], L 3]) [1] ∧
+    getPath (.dict [D [L 5, L 3], L 3]) [0, 1] = getPath (.dict [D [none, L 3], L 3]) [0, 1] := by decide +kernel
+
 omit [DecidableEq α] in
 /-- `TypeError` exactly when `d` has the key and the chain `other[key]…[key]` ends in a value that is
 not a dictionary (there is nowhere to put the previous value) -/
@@ -701,12 +723,22 @@ theorem reconstruct_from_part (truthy : α → Bool) (n : Nat) (lv : Int) (a c :
   have := reconstruct truthy n lv a c
   rwa [h1] at this
 
+example : contained 2 [none, D [L 1, none]] [L 0, D [L 1, L 2]] = true ∧
+    updL [none, D [L 1, none]] (difference tr 2 [L 0, D [L 1, L 2]] [none, D [L 1, none]]) = [L 0, D [L 1, L 2]] := by
+  decide +kernel
+
 /-- every argument of an n-ary intersection is the intersection updated with its own difference -/
 theorem reconstruct_nary (truthy : α → Bool) (n : Nat) (lv : Int) (ds : List (Slots α))
     (hw : ∀ d ∈ ds, WFD n d) (d : Slots α) (hd : d ∈ ds) :
     updL (interN n lv ds) (difference truthy lv d (interN n lv ds)) = d :=
   reconstruct_from_part truthy n lv d _ (hw d hd) (inter_wf n lv ds hw) (inter_lower n lv ds d hd)
 
+
+example : ∀ d ∈ [[L 0, D [L 1, L 2]], [L 0, D [L 1, L 3]], [L 4, D [L 1, none]]],
+    updL (interN 2 1 [[L 0, D [L 1, L 2]], [L 0, D [L 1, L 3]], [L 4, D [L 1, none]]])
+      (difference tr 1 d (interN 2 1 [[L 0, D [L 1, L 2]], [L 0, D [L 1, L 3]], [L 4, D [L 1, none]]])) = d :=
+  reconstruct_nary tr 2 1 _ (forall_triple (wfd2 _ (by decide +kernel)) (wfd2 _ (by decide +kernel))
+    (wfd2 _ (by decide +kernel)))
 
 /-! ## a level above the nesting depth limits nothing -/
 
@@ -1038,9 +1070,16 @@ theorem update_with_group_contains_old (truthy : α → Bool) (n : Nat) (ctx1 ne
   update_with_group_contains truthy n ctx1 new old
     (cont_trans (-1) _ _ _ (inter_lower n (-1) [new, old] old (by simp)) h)
 
-/-- `_update_with_group` as a whole, when `output.changed` is not touched (no member and not the context has it):
-with the old intersection contained in the context, afterwards the new intersection is -/
-theorem update_with_group_result (truthy : α → Bool) (n o ch : Nat) (tt ff : α)
+/-- `_update_with_group` as a whole — the full statement: with the old intersection contained in the context,
+afterwards the new intersection is.  It is FALSE in general: the function first overwrites `output.changed` with a
+boolean, which may be an item of both intersections (witness below) -/
+def update_with_group_result_full (α : Type) [DecidableEq α] : Prop :=
+  ∀ (truthy : α → Bool) (n o ch : Nat) (tt ff : α) (ctx : Slots α) (newGrp : List (Slots α)) (oldInter : Slots α),
+    contained (-1) oldInter ctx = true →
+    contained (-1) (interN n (-1) newGrp) (updateWithGroup truthy n o ch tt ff ctx newGrp oldInter) = true
+
+/-- the part that holds: when `output.changed` is not touched (neither the context nor a member has it) -/
+theorem update_with_group_result_partial (truthy : α → Bool) (n o ch : Nat) (tt ff : α)
     (ctx : Slots α) (newGrp : List (Slots α)) (oldInter : Slots α)
     (hch : changed3 truthy ff (getRec2 ctx o ch :: newGrp.map (fun c => getRec2 c o ch)) = none)
     (hold : contained (-1) oldInter ctx = true) :
@@ -1048,6 +1087,16 @@ theorem update_with_group_result (truthy : α → Bool) (n o ch : Nat) (tt ff : 
   unfold updateWithGroup
   simp only [hch]
   exact update_with_group_contains_old truthy n ctx _ oldInter hold
+
+/-- the full statement fails: context, old and new intersection all `{"output": {"changed": "x"}}` (the leaf 5 below,
+truthy): `output.changed` becomes `True` (the leaf 1) and the new intersection is no longer contained -/
+theorem update_with_group_result_full_false : ¬ update_with_group_result_full Nat := by
+  intro h
+  have := h (fun i => i != 0) 2 0 1 1 0
+    [some (.dict [none, some (.leaf 5)]), none] [[some (.dict [none, some (.leaf 5)]), none]]
+    [some (.dict [none, some (.leaf 5)]), none] (by decide +kernel)
+  revert this
+  decide +kernel
 
 example : changed3 (fun i => i != 0) 0 [none, (none : Option (Val Nat))] = none ∧
     changed3 (fun i => i != 0) 0 [some (.leaf 0), (none : Option (Val Nat))] = some false ∧
@@ -1098,6 +1147,15 @@ theorem update_never_writes_other (t : Nat) (x y : TSlots α) (u c : Nat)
   · exact h2 h
   · exact h3 h
   · omega
+
+-- the hypothesis holds for separate arguments: d = object 0 with a sub-dictionary 1, other = objects 2, 3, next identity 4
+example : ∀ w ∈ toksV (.dict 2 [some (.dict 3 [some (.leaf [] (1 : Nat)), none]), none]),
+    w < 4 ∧ w ≠ 0 ∧ w ∉ dictToksL [none, some (.dict 1 [none, none] : TVal Nat)] := by decide
+-- … and it fails for the next call: after `update_recursively(d, other)` with `d = {}` the dictionary 3 of `other` is a
+-- dictionary of `d` (it was stored, not copied), so a second update of `d` at that key writes into `other`'s object 3
+example : dictToksL (updTL 0 [none, none] [some (.dict 3 [some (.leaf [] (1 : Nat)), none]), none] 4).val = [3] ∧
+    (updTL 0 (updTL 0 [none, none] [some (.dict 3 [some (.leaf [] (1 : Nat)), none]), none] 4).val
+      [some (.dict 5 [none, some (.leaf [] 2)]), none] 6).log = [3] := by decide +kernel
 
 omit [DecidableEq α] in
 /-- afterwards `d` consists of its own objects, of objects of `other` (stored as they are, not copied: later
@@ -1163,5 +1221,113 @@ theorem update_nested_writes (k td : Nat) (x : TSlots α) (to : Nat) (y : TSlots
 -- `update_nested("k0", {"k0": 1}, {"k0": {"k1": 3}})`, d = object 0, other = 1, other["k0"] = 2: written are 2 and 0
 example : (updateNestedT 0 0 [some (.leaf [] (1 : Nat)), none] 1 [some (.dict 2 [none, some (.leaf [] 3)]), none]).map
     (fun p => p.2) = some [2, 0] := by decide +kernel
+
+/-! ## "none of these functions changes an argument it documents as unchanged": intersection and difference
+
+Every argument carries identities (`interArgs`, `diffArgs`); `interArgsLog` / `diffArgsLog` list the identity of the
+dictionary changed by each `del res[key]`, `res[key] = …`, `result[key] = …` that the call executes. -/
+
+/-- `interArgs` computes the value model's intersection of the arguments -/
+theorem interArgs_value (n : Nat) (lv : Int) (c t : Nat) (l0 : TSlots α) (rest : List (TVal α)) :
+    eraseV (interArgs n lv c (.dict t l0 :: rest)).1 = .dict (interN n lv (eraseL l0 :: rest.map argSlots)) :=
+  (interT_value n lv c t l0 (rest.map argSlots)).1
+
+/-- `intersection`: "No dictionary or subdictionary is changed" — every store and every deletion goes into a
+dictionary created during the call … -/
+theorem inter_writes_only_new (lv : Int) (c : Nat) (args : List (TVal α)) :
+    ∀ w ∈ interArgsLog lv c args, c ≤ w := by
+  cases args with
+  | nil => simp [interArgsLog]
+  | cons a rest =>
+    cases a with
+    | leaf ts x => simp [interArgsLog]
+    | dict t l0 =>
+      simp only [interArgsLog]
+      exact interWFold_new lv c c (Nat.le_refl _) _ _ _ (by have := (copyL_fresh l0 (c + 1)).1; omega)
+
+/-- … hence no object of any argument (first or further) is written to -/
+theorem inter_changes_no_argument (lv : Int) (c : Nat) (args : List (TVal α))
+    (hold : ∀ a ∈ args, ∀ w ∈ toksV a, w < c) :
+    ∀ w ∈ interArgsLog lv c args, ∀ a ∈ args, w ∉ toksV a := by
+  intro w hw a ha hmem
+  have := inter_writes_only_new lv c args w hw
+  have := hold a ha w hmem
+  omega
+
+-- intersection({"a": 7, "b": {"a": [8]}}, {"a": 7, "b": {"a": [8], "b": 9}}, {"b": {}}), objects 0..9 exist: written are the
+-- result (the new object 10: `res["b"] = …`, `del res["a"]`, `res["b"] = …`) and the copy made by the second recursive
+-- call (the new object 15: `del res["a"]`)
+example : (∀ a ∈ [TVal.dict 0 [some (.leaf [] 7), some (.dict 1 [some (.leaf [2] (8 : Nat)), none])],
+      .dict 3 [some (.leaf [] 7), some (.dict 4 [some (.leaf [5] 8), some (.leaf [] 9)])],
+      .dict 6 [none, some (.dict 9 [none, none])]], ∀ w ∈ toksV a, w < 10) ∧
+    interArgsLog (-1) 10 [TVal.dict 0 [some (.leaf [] 7), some (.dict 1 [some (.leaf [2] (8 : Nat)), none])],
+      .dict 3 [some (.leaf [] 7), some (.dict 4 [some (.leaf [5] 8), some (.leaf [] 9)])],
+      .dict 6 [none, some (.dict 9 [none, none])]] = [10, 10, 15, 10] := by
+  refine ⟨by decide, ?_⟩
+  simp [interArgsLog, interWFold, interWL, interWO, interTL, interTO, copyL, copyV, eraseV, eraseL, argSlots, nonEmpty]
+
+/-- `diffArgs` computes the value model's difference -/
+theorem diffArgs_value (truthy : α → Bool) (lv : Int) (d1 d2 : TVal α) (c : Nat) :
+    eraseV (diffArgs truthy lv d1 d2 c).1 = diffV truthy lv (eraseV d1) (eraseV d2) :=
+  erase_diffTV truthy lv d1 (eraseV d2) c
+
+/-- `difference`: "d1 and d2 remain unchanged" — every store goes into a dictionary created during the call … -/
+theorem diff_writes_only_new (truthy : α → Bool) (lv : Int) (d1 d2 : TVal α) (c : Nat) :
+    ∀ w ∈ diffArgsLog truthy lv d1 d2 c, c ≤ w :=
+  diffWV_new truthy lv d1 (eraseV d2) c
+
+/-- … hence no object of `d1` or `d2` is written to -/
+theorem diff_changes_no_argument (truthy : α → Bool) (lv : Int) (d1 d2 : TVal α) (c : Nat)
+    (hold : ∀ w, w ∈ toksV d1 ∨ w ∈ toksV d2 → w < c) :
+    ∀ w ∈ diffArgsLog truthy lv d1 d2 c, w ∉ toksV d1 ∧ w ∉ toksV d2 := by
+  intro w hw
+  have := diff_writes_only_new truthy lv d1 d2 c w hw
+  exact ⟨fun h => by have := hold w (Or.inl h); omega, fun h => by have := hold w (Or.inr h); omega⟩
+
+example : diffArgsLog (fun i => i != 0) (-1)
+      (.dict 0 [some (.leaf [] (7 : Nat)), some (.dict 1 [some (.leaf [2] 8), some (.dict 3 [none, none])])])
+      (.dict 4 [some (.leaf [] 7), some (.dict 5 [some (.leaf [6] 8), some (.leaf [] 9)])]) 7 = [8, 7] := by
+  decide +kernel
+
+/-! ## finite levels without the level-indexed order
+
+For `level ∈ {0, 1, 2, …}` the theorems `inter_lower` / `inter_greatest` / `diff_exact` are relative to
+`contained level`, an order that was *read off the code and its docstring* ("if level is 1, the result contains those
+subdictionaries which are equal"); with the ordinary, unlimited containment "the greatest dictionary contained in every
+argument" is false for a finite level (`intersection({'a':{'b':1,'c':2}}, {'a':{'b':1}}, level=1) == {}`).  The
+following characterisation does not use that order: level 0 and level 1 are given outright (`inter_level0`,
+`inter_level1_key`), and every other level is the next lower level one dictionary down. -/
+
+/-- the result at `level ∉ {0, 1}`, key by key: equal items are kept, two differing dictionaries are replaced by their
+intersection at `level - 1`, everything else is dropped -/
+theorem inter_level_step (n : Nat) (lv : Int) (h0 : lv ≠ 0) (h1 : lv ≠ 1) (a b : Slots α) (k : Nat) :
+    getSlot (interN n lv [a, b]) k =
+      match getSlot a k, getSlot b k with
+      | some v, some w =>
+        if w = v then some v
+        else match v, w with
+          | .dict x, .dict y => some (.dict (interN n (lv - 1) [x, y]))
+          | _, _ => none
+      | _, _ => none := by
+  rw [inter_key n lv h0]
+  cases ha : getSlot a k with
+  | none => simp [interO]
+  | some v =>
+    cases hb : getSlot b k with
+    | none => simp [interO]
+    | some w =>
+      cases v with
+      | leaf x => cases w <;> simp [interO]
+      | dict x =>
+        cases w with
+        | leaf y => simp [interO]
+        | dict y =>
+          simp only [interO, h1, if_false, interN_pair, inter2]
+
+-- with the unlimited order the level-1 result is not the greatest common part: {'a': {'b': 1}} is contained in both
+example : interN 2 1 [[some (.dict [some (.leaf (1 : Nat)), some (.leaf 2)]), none], [some (.dict [some (.leaf 1), none]), none]]
+      = [none, none] ∧
+    contained (-1) [some (.dict [some (.leaf (1 : Nat)), none]), none]
+      [some (.dict [some (.leaf 1), some (.leaf 2)]), none] = true := by decide +kernel
 
 end Lena.C07
